@@ -257,111 +257,201 @@ example : Gen.Schnorr.TAG_AUX.map (fun b => Char.ofNat b.toNat) = "BIP0340/aux".
 
 end Props.C03
 
-/-! ## End to end: the same theorems about `Btc.EC.ops C`, no `Lawful` hypothesis
+/-! ## End to end: the same theorems about the EXECUTED instance `Btc.EC.ops C`, no `Lawful` hypothesis
 
-`L : Lawful o G` above is discharged by C01's capstone `Btc.C01.lawful_ec`, for every curve with `CurveOk p C` (p prime
-≠ 2, n an odd prime, generator reduced, on the curve, of order n) and `p ≡ 3 (mod 4)` (proofs: Proofs/E2E/C03.lean).
-T1 is about the raw integer pairs of `Btc.EC.ops C` (sign and verify both).  T2–T4 are over `opsSub K`: `Btc.EC.ops C`
-applied to the underlying pairs (`Btc.C01.opsSub_val`), `lift_x` answering only inside the `n`-torsion — which on a
-curve with a cofactor the unrestricted `lift_x` leaves; what `verify_` accepts over `opsSub K` it accepts over
-`Btc.EC.ops C` (`verify_sub_imp_ec`).  For secp256k1 (generated constants) nothing is assumed about the curve: primality of
-`p` and `n` by Pratt certificates (`Btc.E2E.secp256k1_p_prime`, `secp256k1_n_prime`), the rest of `CurveOk` computed by
-the kernel (`Btc.E2E.secpOk`). -/
+`L : Lawful o G` above is discharged by C01's capstone `Btc.C01.lawful_ec : Lawful (opsSub K) _` for every curve with
+`CurveOk p C` (p prime ≠ 2, n an odd prime, generator reduced, on the curve, of order n) and `p ≡ 3 (mod 4)`.  `opsSub K`
+is `Btc.EC.ops C` applied to the underlying integer pairs, with `lift_x` filtered to the `n`-torsion — a function that is
+never executed.  Every theorem below is therefore stated about the raw `Btc.EC.ops C` the driver runs:
+* T1 (sign → verify) needs nothing more (`sign_` never lifts a foreign x);
+* T2–T4 (verify ⇔ equation, batch) need the filter never to fire, i.e. the explicit, NAMED hypothesis
+  `hcof : ∀ g, n • g = 0` (cofactor one: every point of the curve has order dividing `n`) together with `Δ ≠ 0`; under it
+  verify and batch over `opsSub K` ARE the runs over `Btc.EC.ops C`, refusal classes included (`verify_sub_eq_ec`,
+  `batch_sub_eq_ec`).  Without it only `verify_sub_imp_ec` holds, and on a curve with a cofactor T2 is false of `lift_x`.
+For secp256k1 (generated constants): primality of `p` and `n` is PROVED (Pratt certificates, `secp256k1_p_prime`,
+`secp256k1_n_prime`), `Δ ≠ 0` is proved, the rest of `CurveOk` is computed by the kernel; **`hcof` is the one remaining
+assumption about the curve** (Mathlib has no point count / Hasse bound) and is an explicit hypothesis of every
+`_secp256k1` theorem except T1. -/
 namespace Props.C03
+open WeierstrassCurve
 open Btc Btc.EC Btc.C01 Btc.E2E Btc.Schnorr
 
-/-- T1 on btclib's arithmetic, any curve -/
+/-- T1 on btclib's arithmetic, any curve (no cofactor hypothesis) -/
 theorem sign_verifies_ec {p : ℕ} [Fact p.Prime] {C : Curve} (K : CurveOk p C) (h34 : p % 4 = 3) (prm : Params)
     (fuel : ℕ) (msg : Bytes) (q : ℤ) (aux : Bytes) (sg : Sig) (h : sign (EC.ops C) prm fuel msg q aux = .ok sg) :
     verify (EC.ops C) prm msg ((EC.ops C).x ((EC.ops C).mul q C.G)) sg = true :=
   Btc.E2E.sign_verifies_ec K h34 prm fuel msg q aux sg h
 
-/-- `sign_` run over `opsSub K` IS `sign_` run over `Btc.EC.ops C`; `verify_` over `opsSub K` implies it over
-    `Btc.EC.ops C` -/
+/-- `sign_` run over `opsSub K` IS `sign_` run over `Btc.EC.ops C` (no cofactor hypothesis) -/
 theorem sign_sub_eq_ec {p : ℕ} [Fact p.Prime] {C : Curve} (K : CurveOk p C) (h34 : p % 4 = 3) (prm : Params)
     (fuel : ℕ) (msg : Bytes) (q : ℤ) (aux : Bytes) :
     sign (opsSub K) prm fuel msg q aux = sign (EC.ops C) prm fuel msg q aux :=
   sign_opsSub K h34 prm fuel msg q aux
 
+/-- unconditionally, what `verify_` accepts over `opsSub K` it accepts over `Btc.EC.ops C` -/
 theorem verify_sub_imp_ec {p : ℕ} [Fact p.Prime] {C : Curve} (K : CurveOk p C) (prm : Params) (msg : Bytes)
     (xQ : ℤ) (sg : Sig) (h : verify (opsSub K) prm msg xQ sg = true) : verify (EC.ops C) prm msg xQ sg = true :=
   verify_opsSub_imp K prm msg xQ sg h
 
-/-- T2 over `opsSub K`, any curve -/
-theorem verify_iff_ec {p : ℕ} [Fact p.Prime] {C : Curve} (K : CurveOk p C) (h34 : p % 4 = 3) (prm : Params)
-    (msg : Bytes) (xQ : ℤ) (sg : Sig) :
-    verify (opsSub K) prm msg xQ sg = true ↔
+/-- … and under cofactor one the converse too: the two runs are EQUAL, as results with their refusal class
+    (`assert_as_valid_`) and as verdicts (`verify_`) -/
+theorem verify_sub_eq_ec {p : ℕ} [Fact p.Prime] {C : Curve} (K : CurveOk p C) (h34 : p % 4 = 3)
+    (hcof : ∀ g : Pt p C.toCurveGroup, C.n • g = 0) (hΔ : (curveOf p C.toCurveGroup).toAffine.Δ ≠ 0)
+    (prm : Params) (msg : Bytes) (xQ : ℤ) (sg : Sig) :
+    assertAsValid (opsSub K) prm msg xQ sg = assertAsValid (EC.ops C) prm msg xQ sg ∧
+    verify (opsSub K) prm msg xQ sg = verify (EC.ops C) prm msg xQ sg :=
+  ⟨assertAsValid_eq K (liftAgree03 K h34 hcof hΔ) prm msg xQ sg, verify_eq K (liftAgree03 K h34 hcof hΔ) prm msg xQ sg⟩
+
+/-- the batch likewise: `assert_batch_as_valid_` over `opsSub K` IS the run over `Btc.EC.ops C` -/
+theorem batch_sub_eq_ec {p : ℕ} [Fact p.Prime] {C : Curve} (K : CurveOk p C) (h34 : p % 4 = 3)
+    (hcof : ∀ g : Pt p C.toCurveGroup, C.n • g = 0) (hΔ : (curveOf p C.toCurveGroup).toAffine.Δ ≠ 0)
+    (prm : Params) (coef : ℕ → ℤ) (items : List Item) :
+    assertBatch (opsSub K) prm coef items = assertBatch (EC.ops C) prm coef items :=
+  assertBatch_eq K (liftAgree03 K h34 hcof hΔ) prm coef items
+
+/-- T2 about the executed `verify (Btc.EC.ops C)`, raw integer pairs, cofactor one -/
+theorem verify_iff_ec {p : ℕ} [Fact p.Prime] {C : Curve} (K : CurveOk p C) (h34 : p % 4 = 3)
+    (hcof : ∀ g : Pt p C.toCurveGroup, C.n • g = 0) (hΔ : (curveOf p C.toCurveGroup).toAffine.Δ ≠ 0)
+    (prm : Params) (msg : Bytes) (xQ : ℤ) (sg : Sig) :
+    verify (EC.ops C) prm msg xQ sg = true ↔
       0 ≤ sg.r ∧ sg.r < C.p ∧ 0 ≤ sg.s ∧ sg.s < C.n ∧
-      ∃ Q, (opsSub K).liftX xQ = some Q ∧
+      ∃ Q : Point, (EC.ops C).liftX xQ = some Q ∧
         challengeInt (EC.ops C) prm msg xQ sg.r ≠ 0 ∧
         (EC.ops C).isZero ((EC.ops C).sub ((EC.ops C).mul sg.s C.G)
-          ((EC.ops C).mul (challengeInt (EC.ops C) prm msg xQ sg.r) Q.1)) = false ∧
+          ((EC.ops C).mul (challengeInt (EC.ops C) prm msg xQ sg.r) Q)) = false ∧
         (EC.ops C).hasEvenY ((EC.ops C).sub ((EC.ops C).mul sg.s C.G)
-          ((EC.ops C).mul (challengeInt (EC.ops C) prm msg xQ sg.r) Q.1)) = true ∧
+          ((EC.ops C).mul (challengeInt (EC.ops C) prm msg xQ sg.r) Q)) = true ∧
         (EC.ops C).x ((EC.ops C).sub ((EC.ops C).mul sg.s C.G)
-          ((EC.ops C).mul (challengeInt (EC.ops C) prm msg xQ sg.r) Q.1)) = sg.r :=
-  Btc.E2E.verify_iff_ec K h34 prm msg xQ sg
+          ((EC.ops C).mul (challengeInt (EC.ops C) prm msg xQ sg.r) Q)) = sg.r :=
+  verify_iff_raw K (liftAgree03 K h34 hcof hΔ) h34 prm msg xQ sg
 
-/-- T3 over `opsSub K`, any curve -/
-theorem batch_complete_ec {p : ℕ} [Fact p.Prime] {C : Curve} (K : CurveOk p C) (h34 : p % 4 = 3) (prm : Params)
-    (coef : ℕ → ℤ) (items : List Item) (hne : items ≠ [])
-    (hall : ∀ it ∈ items, verify (opsSub K) prm it.msg it.xQ it.sg = true) :
-    batchVerify (opsSub K) prm coef items = true :=
-  Btc.E2E.batch_complete_ec K h34 prm coef items hne hall
+/-- T3 about the executed `batchVerify (Btc.EC.ops C)`, cofactor one -/
+theorem batch_complete_ec {p : ℕ} [Fact p.Prime] {C : Curve} (K : CurveOk p C) (h34 : p % 4 = 3)
+    (hcof : ∀ g : Pt p C.toCurveGroup, C.n • g = 0) (hΔ : (curveOf p C.toCurveGroup).toAffine.Δ ≠ 0)
+    (prm : Params) (coef : ℕ → ℤ) (items : List Item) (hne : items ≠ [])
+    (hall : ∀ it ∈ items, verify (EC.ops C) prm it.msg it.xQ it.sg = true) :
+    batchVerify (EC.ops C) prm coef items = true :=
+  batch_complete_raw K (liftAgree03 K h34 hcof hΔ) h34 prm coef items hne hall
 
-/-- T4 (one bad member) over `opsSub K`, any curve -/
+/-- T4 (one bad member) about the executed batch; `hbad` is the executed `verify_` answering False -/
 theorem batch_one_bad_fails_ec {p : ℕ} [Fact p.Prime] {C : Curve} (K : CurveOk p C) (h34 : p % 4 = 3)
+    (hcof : ∀ g : Pt p C.toCurveGroup, C.n • g = 0) (hΔ : (curveOf p C.toCurveGroup).toAffine.Δ ≠ 0)
     (prm : Params) (coef : ℕ → ℤ) (it0 it1 : Item) (rest : List Item) (j : ℕ) (bad : Item)
     (hj : (it0 :: it1 :: rest)[j]? = some bad)
-    (hbad : verify (opsSub K) prm bad.msg bad.xQ bad.sg = false)
+    (hbad : verify (EC.ops C) prm bad.msg bad.xQ bad.sg = false)
     (hothers : ∀ k it', (it0 :: it1 :: rest)[k]? = some it' → k ≠ j →
-      verify (opsSub K) prm it'.msg it'.xQ it'.sg = true)
+      verify (EC.ops C) prm it'.msg it'.xQ it'.sg = true)
     (hcoef : ¬ C.n ∣ coefAt coef j) :
-    batchVerify (opsSub K) prm coef (it0 :: it1 :: rest) = false :=
-  Btc.E2E.batch_one_bad_fails_ec K h34 prm coef it0 it1 rest j bad hj hbad hothers hcoef
+    batchVerify (EC.ops C) prm coef (it0 :: it1 :: rest) = false :=
+  batch_one_bad_fails_raw K (liftAgree03 K h34 hcof hΔ) h34 prm coef it0 it1 rest j bad hj hbad hothers hcoef
 
-/-- T1 on secp256k1, unconditional (primality of `p`, `n` proved: Pratt certificates) -/
+/-- T4 (any number of bad members) about the executed batch: at most one `aⱼ mod n` passes -/
+theorem batch_at_most_one_coeff_ec {p : ℕ} [Fact p.Prime] {C : Curve} (K : CurveOk p C) (h34 : p % 4 = 3)
+    (hcof : ∀ g : Pt p C.toCurveGroup, C.n • g = 0) (hΔ : (curveOf p C.toCurveGroup).toAffine.Δ ≠ 0)
+    (prm : Params) (coef coef' : ℕ → ℤ) (it0 it1 : Item) (rest : List Item) (j : ℕ) (bad : Item) (hj1 : 1 ≤ j)
+    (hj : (it0 :: it1 :: rest)[j]? = some bad)
+    (hbad : verify (EC.ops C) prm bad.msg bad.xQ bad.sg = false)
+    (hagree : ∀ i, i ≠ j → coef i = coef' i)
+    (h1 : batchVerify (EC.ops C) prm coef (it0 :: it1 :: rest) = true)
+    (h2 : batchVerify (EC.ops C) prm coef' (it0 :: it1 :: rest) = true) :
+    C.n ∣ coef j - coef' j :=
+  batch_at_most_one_coeff_raw K (liftAgree03 K h34 hcof hΔ) h34 prm coef coef' it0 it1 rest j bad hj1 hj hbad hagree h1 h2
+
+/-! ### secp256k1 (generated constants): primality proved, `Δ ≠ 0` proved; `hcof` the one named assumption -/
+
+/-- T1 on secp256k1, unconditional -/
 theorem sign_verifies_secp256k1 (prm : Params)
     (fuel : ℕ) (msg : Bytes) (q : ℤ) (aux : Bytes) (sg : Sig)
     (h : sign (EC.ops secp256k1) prm fuel msg q aux = .ok sg) :
     verify (EC.ops secp256k1) prm msg ((EC.ops secp256k1).x ((EC.ops secp256k1).mul q secp256k1.G)) sg = true :=
   Btc.E2E.sign_verifies_secp256k1 prm fuel msg q aux sg h
 
-/-- T2 on secp256k1 (`secpOps` = `opsSub` of secp256k1: `Btc.E2E.secpOps_val`) -/
-theorem verify_iff_secp256k1 (prm : Params)
+/-- T2 about `verify (Btc.EC.ops secp256k1)`, under `hcof` -/
+theorem verify_iff_secp256k1 (hcof : ∀ g : SecpGroup, secp256k1.n • g = 0) (prm : Params)
     (msg : Bytes) (xQ : ℤ) (sg : Sig) :
-    verify secpOps prm msg xQ sg = true ↔
+    verify (EC.ops secp256k1) prm msg xQ sg = true ↔
       0 ≤ sg.r ∧ sg.r < secp256k1.p ∧ 0 ≤ sg.s ∧ sg.s < secp256k1.n ∧
-      ∃ Q, secpOps.liftX xQ = some Q ∧
+      ∃ Q : Point, (EC.ops secp256k1).liftX xQ = some Q ∧
         challengeInt (EC.ops secp256k1) prm msg xQ sg.r ≠ 0 ∧
         (EC.ops secp256k1).isZero ((EC.ops secp256k1).sub ((EC.ops secp256k1).mul sg.s secp256k1.G)
-          ((EC.ops secp256k1).mul (challengeInt (EC.ops secp256k1) prm msg xQ sg.r) Q.1)) = false ∧
+          ((EC.ops secp256k1).mul (challengeInt (EC.ops secp256k1) prm msg xQ sg.r) Q)) = false ∧
         (EC.ops secp256k1).hasEvenY ((EC.ops secp256k1).sub ((EC.ops secp256k1).mul sg.s secp256k1.G)
-          ((EC.ops secp256k1).mul (challengeInt (EC.ops secp256k1) prm msg xQ sg.r) Q.1)) = true ∧
+          ((EC.ops secp256k1).mul (challengeInt (EC.ops secp256k1) prm msg xQ sg.r) Q)) = true ∧
         (EC.ops secp256k1).x ((EC.ops secp256k1).sub ((EC.ops secp256k1).mul sg.s secp256k1.G)
-          ((EC.ops secp256k1).mul (challengeInt (EC.ops secp256k1) prm msg xQ sg.r) Q.1)) = sg.r :=
-  Btc.E2E.verify_iff_secp256k1 prm msg xQ sg
+          ((EC.ops secp256k1).mul (challengeInt (EC.ops secp256k1) prm msg xQ sg.r) Q)) = sg.r :=
+  @verify_iff_raw secp256k1_p ⟨secp256k1_p_prime⟩ secp256k1 secpOk (secp_liftAgree03 hcof) secp256k1_h34 prm msg xQ sg
 
-/-- T3 on secp256k1 -/
-theorem batch_complete_secp256k1 (prm : Params)
+/-- T3 about `batchVerify (Btc.EC.ops secp256k1)`, under `hcof` -/
+theorem batch_complete_secp256k1 (hcof : ∀ g : SecpGroup, secp256k1.n • g = 0) (prm : Params)
     (coef : ℕ → ℤ) (items : List Item) (hne : items ≠ [])
-    (hall : ∀ it ∈ items, verify secpOps prm it.msg it.xQ it.sg = true) :
-    batchVerify secpOps prm coef items = true :=
-  Btc.E2E.batch_complete_secp256k1 prm coef items hne hall
+    (hall : ∀ it ∈ items, verify (EC.ops secp256k1) prm it.msg it.xQ it.sg = true) :
+    batchVerify (EC.ops secp256k1) prm coef items = true :=
+  @batch_complete_raw secp256k1_p ⟨secp256k1_p_prime⟩ secp256k1 secpOk (secp_liftAgree03 hcof) secp256k1_h34 prm coef
+    items hne hall
 
-/-- T4 (one bad member) on secp256k1 -/
-theorem batch_one_bad_fails_secp256k1 (prm : Params)
+/-- T4 (one bad member) about `batchVerify (Btc.EC.ops secp256k1)`, under `hcof` -/
+theorem batch_one_bad_fails_secp256k1 (hcof : ∀ g : SecpGroup, secp256k1.n • g = 0) (prm : Params)
     (coef : ℕ → ℤ) (it0 it1 : Item) (rest : List Item) (j : ℕ) (bad : Item)
     (hj : (it0 :: it1 :: rest)[j]? = some bad)
-    (hbad : verify secpOps prm bad.msg bad.xQ bad.sg = false)
+    (hbad : verify (EC.ops secp256k1) prm bad.msg bad.xQ bad.sg = false)
     (hothers : ∀ k it', (it0 :: it1 :: rest)[k]? = some it' → k ≠ j →
-      verify secpOps prm it'.msg it'.xQ it'.sg = true)
+      verify (EC.ops secp256k1) prm it'.msg it'.xQ it'.sg = true)
     (hcoef : ¬ secp256k1.n ∣ coefAt coef j) :
-    batchVerify secpOps prm coef (it0 :: it1 :: rest) = false :=
-  Btc.E2E.batch_one_bad_fails_secp256k1 prm coef it0 it1 rest j bad hj hbad hothers hcoef
+    batchVerify (EC.ops secp256k1) prm coef (it0 :: it1 :: rest) = false :=
+  @batch_one_bad_fails_raw secp256k1_p ⟨secp256k1_p_prime⟩ secp256k1 secpOk (secp_liftAgree03 hcof) secp256k1_h34 prm
+    coef it0 it1 rest j bad hj hbad hothers hcoef
 
--- non-vacuity: on `y² = x³ + 7` over `F₄₃` (31 points) `CurveOk` is PROVED, nothing is assumed: actual signing runs
--- of btclib's arithmetic, the verdict T1 gives on them, and a two-member batch of them passing for every coefficients
+/-- T4 (any number of bad members) about `batchVerify (Btc.EC.ops secp256k1)`, under `hcof` -/
+theorem batch_at_most_one_coeff_secp256k1 (hcof : ∀ g : SecpGroup, secp256k1.n • g = 0) (prm : Params)
+    (coef coef' : ℕ → ℤ) (it0 it1 : Item) (rest : List Item) (j : ℕ) (bad : Item) (hj1 : 1 ≤ j)
+    (hj : (it0 :: it1 :: rest)[j]? = some bad)
+    (hbad : verify (EC.ops secp256k1) prm bad.msg bad.xQ bad.sg = false)
+    (hagree : ∀ i, i ≠ j → coef i = coef' i)
+    (h1 : batchVerify (EC.ops secp256k1) prm coef (it0 :: it1 :: rest) = true)
+    (h2 : batchVerify (EC.ops secp256k1) prm coef' (it0 :: it1 :: rest) = true) :
+    secp256k1.n ∣ coef j - coef' j :=
+  @batch_at_most_one_coeff_raw secp256k1_p ⟨secp256k1_p_prime⟩ secp256k1 secpOk (secp_liftAgree03 hcof) secp256k1_h34
+    prm coef coef' it0 it1 rest j bad hj1 hj hbad hagree h1 h2
+
+/-- the sizes the DRIVER computes for secp256k1 (`Params.ofCurve`: from the bit lengths of `p` and `n`, as btclib's
+    `p_size`, `n_size`, `nlen`) are the generated sizes `Sig.parse` reads -/
+theorem secp256k1_sizes (hfLen : ℕ) (TH : Bytes → Bytes → Bytes) :
+    (Params.ofCurve secp256k1 hfLen TH).pSize = Gen.Schnorr.PARSE_P_SIZE ∧
+    (Params.ofCurve secp256k1 hfLen TH).nSize = Gen.Schnorr.PARSE_N_SIZE ∧
+    (Params.ofCurve secp256k1 hfLen TH).nlen = 256 := by
+  have h : (Py.natBitLength secp256k1.p.toNat + 7) / 8 = Gen.Schnorr.PARSE_P_SIZE ∧
+      (Py.natBitLength secp256k1.n.toNat + 7) / 8 = Gen.Schnorr.PARSE_N_SIZE ∧
+      Py.natBitLength secp256k1.n.toNat = 256 := by decide +kernel
+  exact h
+
+/-- T5 at the driver's own parameters for secp256k1: the 64-byte codec round-trips both ways -/
+theorem codec_secp256k1 (hfLen : ℕ) (TH : Bytes → Bytes → Bytes) (sg : Sig) (b : Bytes) :
+    (serialize (EC.ops secp256k1) (Params.ofCurve secp256k1 hfLen TH) sg = .ok b →
+      parse (EC.ops secp256k1) (Params.ofCurve secp256k1 hfLen TH) b = .ok sg) ∧
+    (parse (EC.ops secp256k1) (Params.ofCurve secp256k1 hfLen TH) b = .ok sg →
+      serialize (EC.ops secp256k1) (Params.ofCurve secp256k1 hfLen TH) sg = .ok b ∧ b.length = 64 ∧
+      0 ≤ sg.r ∧ sg.r < secp256k1.p ∧ 0 ≤ sg.s ∧ sg.s < secp256k1.n) := by
+  obtain ⟨h1, h2, _⟩ := secp256k1_sizes hfLen TH
+  have hsz : (Params.ofCurve secp256k1 hfLen TH).pSize + (Params.ofCurve secp256k1 hfLen TH).nSize
+      = Gen.Schnorr.REQUIRED_LENGTH := by rw [h1, h2]; exact parse_sizes
+  have hp : (EC.ops secp256k1).p ≤ 256 ^ (Params.ofCurve secp256k1 hfLen TH).pSize := by
+    rw [h1]; exact secp_sizes.1
+  have hn : (EC.ops secp256k1).n ≤ 256 ^ (Params.ofCurve secp256k1 hfLen TH).nSize := by
+    rw [h2]; exact secp_sizes.2.1
+  exact ⟨parse_serialize _ hsz hp hn sg b, serialize_parse _ hsz b sg⟩
+
+/-- the parameters of the run example below: secp256k1's own sizes, a small "tagged hash" -/
+def runPrm : Params :=
+  Params.ofCurve secp256k1 32 (fun tag m => List.replicate 31 0 ++ [UInt8.ofNat (tag.length + m.length)])
+
+-- non-vacuity: an actual signing run of btclib's arithmetic ON secp256k1 (kernel-evaluated, 256-bit ladder), and the
+-- verdict T1 gives on it; on `y² = x³ + 7` over `F₄₃` (31 points) `CurveOk` is PROVED: runs, and a two-member batch
+theorem secp256k1_run : sign (EC.ops secp256k1) runPrm 4 [1, 2] 3 (List.replicate 32 7) =
+    .ok ⟨109111382237769790097646325753800985432696951592160583206768965440742916720568, 170⟩ := by decide +kernel
+example : verify (EC.ops secp256k1) runPrm [1, 2]
+    ((EC.ops secp256k1).x ((EC.ops secp256k1).mul 3 secp256k1.G))
+    ⟨109111382237769790097646325753800985432696951592160583206768965440742916720568, 170⟩ = true :=
+  sign_verifies_secp256k1 runPrm 4 [1, 2] 3 (List.replicate 32 7) _ secp256k1_run
 example : sign (EC.ops toyC) toyPrm 5 [1, 2] 3 [0] = .ok ⟨2, 19⟩ := toy_schnorr_sign1
 example : verify (EC.ops toyC) toyPrm [1, 2] 35 ⟨2, 19⟩ = true := toy_schnorr_verifies
 example (coef : ℕ → ℤ) :
